@@ -205,5 +205,5 @@ func TestRoundTrip(t *testing.T) {
 		})
 		return
 	}
-	rtCheck.Rapid(t, hx.N(5000, 300000), genCase)
+	rtCheck.Rapid(t, hx.N(100000, 1000000), genCase)
 }
